@@ -722,8 +722,56 @@ def check_orderings(ctx):
         raise AnalysisError("R01-ORDER self-check fixture no longer matches")
 
 
+def check_protocol_calls(ctx):
+    """R01-SIG: a wrapper drives its base learners through pull / receive_reward / get_last_point; every such call on a learner must
+    bind against the signature of EACH base algorithm the wrapper accepts (T_HOO, HCT, VHCT): right number of positional arguments,
+    every keyword a parameter name - otherwise the call raises TypeError for that base algorithm only."""
+    model = ctx.model
+    bases = [b for b in ("T_HOO", "HCT", "VHCT") if b in model.classes]
+    n = 0
+    for w in ("POO", "GPO"):
+        if w not in model.classes:
+            continue
+        c = model.cls(w)
+        for fn in c.methods.values():
+            for call in ast.walk(fn):
+                if not (isinstance(call, ast.Call) and isinstance(call.func, ast.Attribute) and call.func.attr in PROTOCOL[1:]):
+                    continue
+                recv = call.func.value
+                if isinstance(recv, ast.Name) and recv.id in ("self", "super"):
+                    continue
+                if isinstance(recv, ast.Call) and isinstance(recv.func, ast.Name) and recv.func.id == "super":
+                    continue
+                if any(isinstance(a, ast.Starred) for a in call.args) or any(k.arg is None for k in call.keywords):
+                    continue
+                n += 1
+                bad = []
+                for b in bases:
+                    o, m = model.lookup(b, call.func.attr)
+                    if m is None:
+                        bad.append("%s has no %s" % (b, call.func.attr))
+                        continue
+                    params = [a.arg for a in m.args.args][1:]
+                    ndef = len(m.args.defaults)
+                    required = params[:len(params) - ndef] if ndef else params
+                    kws = [k.arg for k in call.keywords]
+                    if len(call.args) > len(params) and not m.args.vararg:
+                        bad.append("%s.%s takes %d argument(s)" % (b, m.name, len(params)))
+                    unknown = [k for k in kws if k not in params and not m.args.kwarg]
+                    if unknown:
+                        bad.append("%s.%s has no parameter %s (its parameters: %s)" % (b, m.name, unknown, params))
+                    bound = set(params[:len(call.args)]) | set(kws)
+                    missing = [p_ for p_ in required if p_ not in bound]
+                    if missing and not unknown:
+                        bad.append("%s.%s is called without %s" % (b, m.name, missing))
+                ctx.ob("R01-SIG", not bad, c.file, "%s.%s" % (w, fn.name), norm_src(call),
+                       "binds against %s" % ", ".join(bases) if not bad else "; ".join(bad) + " - TypeError when that base algorithm is used", call.lineno)
+    ctx.count("R01-SIG learner protocol calls in POO/GPO", n, 4)
+
+
 def run(ctx):
     import_wrappers(ctx)
+    check_protocol_calls(ctx)
     check_orderings(ctx)
     check_attr(ctx)
     check_prov(ctx)
